@@ -139,7 +139,9 @@ public:
         if ( ++inside > worst ) worst = inside;
         for ( fc_iterator it = itBegin, itPrev = itEnd; it != itEnd; ++it ) {
             if ( it->op( atomics::memory_order_acquire ) == op_pair ) {
-                if ( itPrev != itEnd ) {
+                if ( itPrev == it )
+                    ;                               // the same record twice (only in a cyclic list): never pair a record with itself
+                else if ( itPrev != itEnd ) {
                     execute( *itPrev, op_pair );
                     execute( *it, op_pair );
                     m_fc.operation_done( *itPrev );
